@@ -10,6 +10,7 @@ package c04
 
 import (
 	"fmt"
+	"os"
 	"testing"
 
 	sdk "github.com/cosmos/cosmos-sdk/types"
@@ -83,6 +84,9 @@ func ibcPrefixProbe(t *testing.T, out *hx.Out) {
 		if got.Denom == v11 {
 			which = "channel-11 voucher (WRONG)"
 			out.Count("probe:ibc-channel-prefix:wrong-voucher-for-channel-1")
+			if os.Getenv("VERIF_C04_PROBE_STRICT") == "1" {
+				out.Violate("a request to leave through IBC channel-1 is paid in the voucher of channel-11 (alias look-up matches the channel by string prefix); the channel-11 route then lacks the funds that came in through it")
+			}
 		} else {
 			out.Count("probe:ibc-channel-prefix:right-voucher-for-channel-1")
 		}
